@@ -5,9 +5,11 @@ import (
 	"go/ast"
 	"go/token"
 	"go/types"
+	"sort"
 	"strings"
 
 	"golang.org/x/tools/go/packages"
+	"golang.org/x/tools/go/ssa"
 	"golang.org/x/tools/go/types/typeutil"
 )
 
@@ -35,7 +37,9 @@ func checkC14(c *Ctx, r *Report) {
 	renderDM(c, r)
 	renderOneD(c, r)
 	renderMargins(c, r)
-	r.Note("not decided: SetRegion's own bit arithmetic (C16); that sampling block centres returns the module matrix is a consequence of these terms plus SetRegion's contract")
+	checkWriterStateless(c, r)
+	checkWholeOps(c, r) // SetRegion's own bit arithmetic (same obligations as under C16)
+	r.Note("not decided: that sampling block centres returns the module matrix is a consequence of these terms plus SetRegion's contract")
 }
 
 func pureGetter(o types.Object) bool {
@@ -440,5 +444,132 @@ func renderMargins(c *Ctx, r *Report) {
 		r.Check(ok, "R-MARGIN", "gozxing.BitMatrix.At", c.pos(fd.Pos()), msg)
 	} else {
 		r.AnchorLost("R-MARGIN", "gozxing.BitMatrix.At", "method not found")
+	}
+}
+
+// W-WRITER: encoding does not reconfigure the writer
+func checkWriterStateless(c *Ctx, r *Report) {
+	r.Rule("W-WRITER", "no function reachable from a Writer's Encode stores into a field of an already existing writer object (a type implementing gozxing.Writer, or a struct embedded in one): hints of one call - margin, size - must not leak into the next call on the same writer; stores into objects allocated in the same function (constructors) are exempt", 1)
+	nf := c.newNilFlow()
+	roots := nf.entryMethods("", "Writer", "Encode")
+	roots = append(roots, nf.entryMethods("", "Writer", "EncodeWithoutHint")...)
+	if len(roots) < 5 {
+		r.AnchorLost("W-WRITER", "Writer.Encode implementations", fmt.Sprintf("only %d found", len(roots)))
+		return
+	}
+	wobj := c.lookupObj("", "Writer")
+	iface, _ := wobj.Type().Underlying().(*types.Interface)
+	writerTypes := map[*types.Named]bool{}
+	var addEmbedded func(n *types.Named)
+	addEmbedded = func(n *types.Named) {
+		if writerTypes[n] {
+			return
+		}
+		writerTypes[n] = true
+		if st, ok := n.Underlying().(*types.Struct); ok {
+			for i := 0; i < st.NumFields(); i++ {
+				f := st.Field(i)
+				if !f.Embedded() {
+					continue
+				}
+				t := f.Type()
+				if pt, isP := t.(*types.Pointer); isP {
+					t = pt.Elem()
+				}
+				if en, isN := t.(*types.Named); isN && isRepoPkg(en.Obj().Pkg()) {
+					addEmbedded(en)
+				}
+			}
+		}
+	}
+	for _, p := range c.PkgList {
+		if strings.HasSuffix(p.PkgPath, "/testutil") {
+			continue
+		}
+		sc := p.Types.Scope()
+		for _, name := range sc.Names() {
+			tn, ok := sc.Lookup(name).(*types.TypeName)
+			if !ok {
+				continue
+			}
+			n, ok := tn.Type().(*types.Named)
+			if !ok {
+				continue
+			}
+			if _, isI := n.Underlying().(*types.Interface); isI {
+				continue
+			}
+			if types.Implements(n, iface) || types.Implements(types.NewPointer(n), iface) {
+				addEmbedded(n)
+			}
+		}
+	}
+	r.Extra("writer_types", len(writerTypes))
+	reach := nf.reachableFrom(roots)
+	var fresh func(v ssa.Value, depth int) bool
+	fresh = func(v ssa.Value, depth int) bool {
+		if depth > 8 {
+			return false
+		}
+		switch x := v.(type) {
+		case *ssa.Alloc:
+			return true
+		case *ssa.FieldAddr:
+			return fresh(x.X, depth+1)
+		case *ssa.IndexAddr:
+			return fresh(x.X, depth+1)
+		case *ssa.ChangeType:
+			return fresh(x.X, depth+1)
+		case *ssa.Phi:
+			for _, e := range x.Edges {
+				if !fresh(e, depth+1) {
+					return false
+				}
+			}
+			return true
+		}
+		return false
+	}
+	n, bad := 0, 0
+	var fs []*ssa.Function
+	for f := range reach {
+		fs = append(fs, f)
+	}
+	sort.Slice(fs, func(i, j int) bool { return fs[i].String() < fs[j].String() })
+	for _, f := range fs {
+		ord := 0
+		for _, b := range f.Blocks {
+			for _, in := range b.Instrs {
+				st, ok := in.(*ssa.Store)
+				if !ok {
+					continue
+				}
+				fa, ok := st.Addr.(*ssa.FieldAddr)
+				if !ok {
+					continue
+				}
+				pt, ok := fa.X.Type().Underlying().(*types.Pointer)
+				if !ok {
+					continue
+				}
+				named, ok := pt.Elem().(*types.Named)
+				if !ok || !writerTypes[named] {
+					continue
+				}
+				n++
+				if fresh(fa.X, 0) {
+					continue
+				}
+				bad++
+				stt := named.Underlying().(*types.Struct)
+				key := fmt.Sprintf("%s writes %s.%s#%d", shortFn(f), named.Obj().Name(), stt.Field(fa.Field).Name(), ord)
+				ord++
+				r.Fail("W-WRITER", key, c.pos(st.Pos()), "violation", "a field of an existing writer is assigned on the encode path: the value given for this call stays in the writer and changes what later calls return")
+			}
+		}
+	}
+	r.Extra("writer_field_stores_on_encode_paths", n)
+	if bad == 0 {
+		r.Pass("W-WRITER", "encode paths", "", fmt.Sprintf("%d functions reachable from %d Encode entry points; %d stores into writer-typed objects, all into objects allocated in the same function", len(reach), len(roots), n))
 	}
 }
